@@ -750,7 +750,9 @@ def eval_priv(ctx, spec, key, fmt, enc, pwname, citem):
 
     # --- independent readers
     tool_pw = enc is None or (pwname in TOOL_PW and isinstance(pw, str))
-    if not tool_pw:
+    if not tool_pw or citem in HOSTILE_COMMENTS or \
+            citem[1] in WS_EDGE_COMMENTS:
+        # OpenSSH reads comments as C strings: only benign ones go to tools
         return
     if spec not in SK and (fmt != 'openssh' or spec in PYCA_SSH_TYPES) and \
             not (enc is not None and pw == ''):
@@ -1252,3 +1254,924 @@ def run_in_keygen(ctx):
                         f'{label} -e -m {conv}')
             else:
                 ctx.hit('keygen_in')
+
+
+# ------------------------------------------------------------------ certs
+
+KNOWN_EXT = ['permit-X11-forwarding', 'permit-agent-forwarding',
+             'permit-port-forwarding', 'permit-pty', 'permit-user-rc',
+             'no-touch-required']
+FOREVER = 0xffffffffffffffff
+
+
+def fmt_time(t):
+    return time.strftime('%Y-%m-%dT%H:%M:%S', time.gmtime(t))
+
+
+def validity_text(va, vb):
+    if va == 0 and vb == FOREVER:
+        return 'forever'
+    if va == 0:
+        return 'before ' + fmt_time(vb)
+    if vb == FOREVER:
+        return 'after ' + fmt_time(va)
+    return f'from {fmt_time(va)} to {fmt_time(vb)}'
+
+
+def parse_L(text):
+    """Parse `ssh-keygen -L` output into a dict"""
+
+    out = {'principals': [], 'critical': {}, 'extensions': {}}
+    section = None
+    for line in text.splitlines()[1:]:
+        if line.startswith(' ' * 16):
+            item = line[16:]
+            if section == 'principals':
+                out['principals'].append(item)
+            elif section in ('critical', 'extensions'):
+                name, _, val = item.partition(' ')
+                out[section][name] = val
+            continue
+        s = line.strip()
+        key, _, val = s.partition(':')
+        val = val.strip()
+        section = None
+        if key == 'Type':
+            f = val.split()
+            out['alg'], out['type'] = f[0], f[1]
+        elif key == 'Public key':
+            out['subject_fp'] = val.split()[-1]
+        elif key == 'Signing CA':
+            f = val.split()
+            out['ca_fp'] = f[1]
+            out['sig_alg'] = f[-1].rstrip(')') if '(using' in val else None
+        elif key == 'Key ID':
+            out['key_id'] = val[1:-1] if val[:1] == '"' else val
+        elif key == 'Serial':
+            out['serial'] = int(val)
+        elif key == 'Valid':
+            out['valid'] = val
+        elif key == 'Principals':
+            section = 'principals'
+        elif key == 'Critical Options':
+            section = 'critical'
+        elif key == 'Extensions':
+            section = 'extensions'
+    return out
+
+
+def cert_view(cert):
+    """asyncssh's reading of a certificate in the same shape as parse_L"""
+
+    opts = dict(cert.options)
+    crit = {}
+    if 'force-command' in opts:
+        crit['force-command'] = opts.pop('force-command')
+    if 'source-address' in opts:
+        crit['source-address'] = ','.join(
+            str(a) for a in opts.pop('source-address'))
+    return {
+        'alg': cert.get_algorithm(),
+        'type': {1: 'user', 2: 'host'}.get(getattr(cert, '_cert_type', 0)),
+        'subject_fp': cert.key.get_fingerprint(),
+        'ca_fp': cert.signing_key.get_fingerprint(),
+        'key_id': getattr(cert, '_key_id', None),
+        'serial': getattr(cert, '_serial', None),
+        'valid': validity_text(getattr(cert, '_valid_after', 0),
+                               getattr(cert, '_valid_before', FOREVER)),
+        'principals': list(cert.principals),
+        'critical': crit,
+        'extensions': {k: '' for k, v in opts.items() if v},
+    }
+
+
+def compare_views(ctx, mech, label, a_view, l_view, ignore_unknown=True):
+    for f in ('alg', 'type', 'subject_fp', 'ca_fp', 'key_id', 'serial',
+              'valid', 'principals', 'critical'):
+        if a_view.get(f) != l_view.get(f):
+            ctx.bad(mech, f'{label}: field {f}: asyncssh '
+                          f'{a_view.get(f)!r} vs ssh-keygen -L '
+                          f'{l_view.get(f)!r}')
+            return False
+    lext = {k: v for k, v in l_view['extensions'].items()
+            if not (ignore_unknown and 'UNKNOWN' in v)}
+    if a_view['extensions'] != lext:
+        ctx.bad(mech, f'{label}: extensions: asyncssh '
+                      f'{sorted(a_view["extensions"])} vs ssh-keygen -L '
+                      f'{sorted(lext)}')
+        return False
+    return True
+
+
+def keygen_ca(kind):
+    """CA key pair written by ssh-keygen (cached per worker)"""
+
+    k = ('kgca', kind)
+    if k not in _KEYS:
+        path = os.path.join(tmp(), f'ca-{kind}')
+        t, b = {'rsa': ('rsa', '2048'), 'ecdsa': ('ecdsa', '384'),
+                'ed25519': ('ed25519', None)}[kind]
+        args = [KEYGEN, '-q', '-t', t, '-N', '', '-C', f'ca {kind}',
+                '-f', path]
+        if b:
+            args += ['-b', b]
+        r = tool(args, timeout=90)
+        _KEYS[k] = path if r.returncode == 0 else None
+    return _KEYS[k]
+
+
+def expected_view(p, alg, subject_fp, ca_fp):
+    ext = {}
+    if p['type'] == 'user':
+        for e in KNOWN_EXT[:5]:
+            if e not in p.get('drop', []):
+                ext[e] = ''
+        if p.get('no_touch'):
+            ext['no-touch-required'] = ''
+    crit = {}
+    if p['type'] == 'user' and p.get('force_command'):
+        crit['force-command'] = p['force_command']
+    if p['type'] == 'user' and p.get('source_address'):
+        crit['source-address'] = ','.join(p['source_address'])
+    return {'alg': alg, 'type': p['type'], 'subject_fp': subject_fp,
+            'ca_fp': ca_fp, 'key_id': p['key_id'], 'serial': p['serial'],
+            'valid': validity_text(p['va'], p['vb']),
+            'principals': list(p['principals']), 'critical': crit,
+            'extensions': ext}
+
+
+def keygen_time(t, end=False):
+    if t == 0 and not end:
+        return 'always'
+    if t == FOREVER:
+        return 'forever'
+    return time.strftime('%Y%m%d%H%M%S', time.gmtime(t))
+
+
+def run_cert(ctx):
+    if not KEYGEN:
+        return
+    for n, p in enumerate(ctx.case['items']):
+        subject = get_key(p['subject'], p.get('sidx', 0))
+        subject.set_comment(p.get('comment'))
+        label = f'cert #{n} {p}'
+        if p['dir'] == 'keygen':
+            _cert_from_keygen(ctx, p, subject, label)
+        else:
+            _cert_to_keygen(ctx, p, subject, label)
+
+
+def _cert_from_keygen(ctx, p, subject, label):
+    ca = keygen_ca(p['ca'])
+    if ca is None:
+        ctx.hit('tool_skipped')
+        return
+    sub = os.path.join(tmp(), 'subj.pub')
+    with open(sub, 'wb') as f:
+        f.write(subject.export_public_key())
+    certpath = os.path.join(tmp(), 'subj-cert.pub')
+    try:
+        os.unlink(certpath)
+    except OSError:
+        pass
+    args = [KEYGEN, '-q', '-s', ca, '-I', p['key_id'], '-z', str(p['serial']),
+            '-V', keygen_time(p['va']) + ':' + keygen_time(p['vb'], True)]
+    if p['principals']:
+        args += ['-n', ','.join(p['principals'])]
+    if p['type'] == 'host':
+        args.append('-h')
+    else:
+        for d in p.get('drop', []):
+            args += ['-O', 'no-' + {'permit-X11-forwarding': 'x11-forwarding',
+                                    'permit-agent-forwarding':
+                                    'agent-forwarding',
+                                    'permit-port-forwarding':
+                                    'port-forwarding', 'permit-pty': 'pty',
+                                    'permit-user-rc': 'user-rc'}[d]]
+        if p.get('no_touch'):
+            args += ['-O', 'no-touch-required']
+        if p.get('force_command'):
+            args += ['-O', 'force-command=' + p['force_command']]
+        if p.get('source_address'):
+            args += ['-O', 'source-address=' + ','.join(p['source_address'])]
+    for e in p.get('custom_ext', []):
+        args += ['-O', 'extension:' + e]
+    if p.get('custom_crit'):
+        args += ['-O', 'critical:' + p['custom_crit']]
+    if p['ca'] == 'rsa' and p.get('sig'):
+        args += ['-t', p['sig']]
+    r = tool(args + [sub])
+    if r.returncode != 0 or not os.path.exists(certpath):
+        ctx.hit('tool_skipped')
+        ctx.note('keygen_sign_failed')
+        return
+    rl = tool([KEYGEN, '-L', '-f', certpath])
+    if rl.returncode != 0:
+        ctx.hit('tool_skipped')
+        return
+    lv = parse_L(rl.stdout.decode('utf-8', 'replace'))
+
+    try:
+        cert = asyncssh.read_certificate(certpath)
+    except KeyImportError as exc:
+        if p.get('custom_crit'):
+            ctx.hit('cert_interop')
+            ctx.note('unknown_critical_refused')
+        else:
+            ctx.bad('foreign_cert_rejected', f'{label}: {exc}')
+        return
+    except Exception as exc:    # noqa: BLE001
+        ctx.bad('import_raised_undocumented',
+                f'{label}: {type(exc).__name__}: {exc}')
+        return
+    if p.get('custom_crit'):
+        ctx.bad('unknown_critical_option_accepted', label)
+        return
+    with open(ca + '.pub', 'rb') as f:
+        ca_blob = base64.b64decode(f.read().split()[1])
+    if cert.signing_key.public_data != ca_blob or \
+            cert.key.public_data != subject.public_data:
+        ctx.bad('foreign_cert_read_differently', f'{label}: keys differ')
+        return
+    if compare_views(ctx, 'foreign_cert_read_differently', label,
+                     cert_view(cert), lv):
+        ctx.hit('cert_interop')
+    # the harness's own expectation (guards the -L parser, never a violation)
+    exp = expected_view(p, lv.get('alg'), fingerprint(subject.public_data),
+                        fingerprint(ca_blob))
+    lcmp = dict(lv, extensions={k: v for k, v in lv['extensions'].items()
+                                if 'UNKNOWN' not in v})
+    lcmp.pop('sig_alg', None)
+    if lcmp != exp:
+        ctx.note('harness_expectation_differs_from_L')
+    # comment of the certificate file = comment of the subject key file
+    ctx.hit('comments_checked')
+    with open(certpath, 'rb') as f:
+        fields = f.read().rstrip(b'\n').split(b' ', 2)
+    filec = fields[2] if len(fields) > 2 else None
+    if cert.get_comment_bytes() != filec:
+        ctx.bad('foreign_comment_read_differently',
+                f'{label}: cert comment {cert.get_comment_bytes()!r}, file '
+                f'has {filec!r}')
+
+
+def _cert_to_keygen(ctx, p, subject, label):
+    ca = get_key(p['ca'], p.get('caidx', 0))
+    kw = dict(serial=p['serial'], principals=p['principals'],
+              valid_after=p['va'], valid_before=p['vb'])
+    if p.get('sig'):
+        kw['sig_alg'] = p['sig']
+    if p.get('ccomment') is not None:
+        kw['comment'] = p['ccomment']
+    try:
+        if p['type'] == 'host':
+            cert = ca.generate_host_certificate(subject, p['key_id'], **kw)
+        else:
+            drop = p.get('drop', [])
+            cert = ca.generate_user_certificate(
+                subject, p['key_id'], force_command=p.get('force_command'),
+                source_address=p.get('source_address'),
+                permit_x11_forwarding='permit-X11-forwarding' not in drop,
+                permit_agent_forwarding='permit-agent-forwarding' not in drop,
+                permit_port_forwarding='permit-port-forwarding' not in drop,
+                permit_pty='permit-pty' not in drop,
+                permit_user_rc='permit-user-rc' not in drop,
+                touch_required=not p.get('no_touch'), **kw)
+    except Exception as exc:    # noqa: BLE001
+        ctx.bad('certificate_generation_failed',
+                f'{label}: {type(exc).__name__}: {exc}')
+        return
+
+    wantc = p['ccomment'].encode() if p.get('ccomment') is not None else \
+        subject.get_comment_bytes()
+    # --- own round trip in both text formats
+    for fmt in ('openssh', 'rfc4716'):
+        data = cert.export_certificate(fmt)
+        try:
+            back = asyncssh.import_certificate(data)
+        except KeyImportError as exc:
+            ctx.bad('import_of_own_export_failed', f'{label} {fmt}: {exc}')
+            continue
+        ctx.hit('round_trips')
+        ctx.hit('comments_checked')
+        if back != cert or back.public_data != cert.public_data or \
+                cert_view(back) != cert_view(cert):
+            ctx.bad('round_trip_cert_differs', f'{label} {fmt}')
+        if back.get_comment_bytes() != (wantc or None):
+            ctx.bad('comment_changed', f'{label} {fmt}: cert comment '
+                                       f'{back.get_comment_bytes()!r}')
+    for fmt in ('der', 'pem'):
+        try:
+            cert.export_certificate(fmt)
+            ctx.bad('export_raised_undocumented',
+                    f'{label}: OpenSSH certificate exported as {fmt}')
+        except KeyExportError:
+            ctx.hit('documented_refusals')
+
+    exp = expected_view(p, cert.get_algorithm(),
+                        fingerprint(subject.public_data),
+                        fingerprint(ca.public_data))
+    if cert_view(cert) != exp:
+        ctx.bad('generated_cert_fields_differ',
+                f'{label}: {cert_view(cert)} != requested {exp}')
+        return
+    if p['ca'] not in KEYGEN_TYPES or p['subject'] not in KEYGEN_TYPES or \
+            not p['key_id'].isascii():
+        return
+    path = wfile('a-cert.pub', cert.export_certificate(), 0o644)
+    rl = tool([KEYGEN, '-L', '-f', path])
+    if rl.returncode != 0:
+        # differential guard: does ssh-keygen list its own certificate for
+        # the same subject key?  (if so it rejects asyncssh's encoding)
+        ctx.hit('tool_skipped')
+        ctx.note('keygen_L_failed:' + rl.stderr.decode('utf-8',
+                                                       'replace')[:60])
+        return
+    lv = parse_L(rl.stdout.decode('utf-8', 'replace'))
+    sig = lv.pop('sig_alg', None)
+    if compare_views(ctx, 'keygen_lists_cert_differently', label, exp, lv,
+                     ignore_unknown=False):
+        ctx.hit('cert_interop')
+    want_sig = p.get('sig') or ca.sig_algorithms[0].decode()
+    if sig is not None and sig != want_sig:
+        ctx.bad('keygen_lists_cert_differently',
+                f'{label}: signature algorithm {sig} != {want_sig}')
+
+
+# ------------------------------------------------------------------ multi
+
+SEPARATORS = ['', '\n', '\n\n', '# a comment line\n', '\r\n']
+
+
+def run_multi(ctx):
+    for n, item in enumerate(ctx.case['items']):
+        kind = item['kind']
+        label = f'multi #{n} {item}'
+        try:
+            if kind == 'priv':
+                _multi_priv(ctx, item, label)
+            elif kind == 'pub':
+                _multi_pub(ctx, item, label)
+            elif kind == 'certs':
+                _multi_certs(ctx, item, label)
+            else:
+                _multi_pair(ctx, item, label)
+        except (KeyImportError, KeyEncryptionError) as exc:
+            ctx.bad('multi_key_file_rejected',
+                    f'{label}: {type(exc).__name__}: {exc}')
+        except (OSError, RuntimeError):
+            raise
+        except Exception as exc:    # noqa: BLE001
+            ctx.bad('multi_key_file_undocumented_error',
+                    f'{label}: {type(exc).__name__}: {exc}')
+
+
+def _join(parts, seps, binary_ok=True):
+    out = b''
+    for (data, is_der), sep in zip(parts, seps):
+        if is_der:
+            out += data            # nothing may precede or follow inside DER
+        else:
+            if not data.endswith(b'\n'):
+                data += b'\n'
+            out += data + sep.encode()
+    return out
+
+
+def _multi_priv(ctx, item, label):
+    pw = item['pw']
+    keys, parts = [], []
+    for spec, fmt, crypt, comment in item['elems']:
+        key = get_key(spec, 1)
+        if key in keys:
+            key = get_key(spec, 2)
+        key.set_comment(comment)
+        data = key.export_private_key(fmt, passphrase=pw if crypt else None)
+        back = asyncssh.import_private_key(data, pw)
+        keys.append((key, comment if fmt == 'openssh' else None,
+                     key.public_data))
+        parts.append((data, fmt.endswith('der')))
+        del back
+    path = wfile('multi-priv', _join(parts, item['seps']))
+    got = asyncssh.read_private_key_list(path, pw)
+    ctx.hit('multi_key_files')
+    if len(got) != len(keys):
+        ctx.bad('multi_key_file_wrong_count',
+                f'{label}: {len(got)} keys read, {len(keys)} written')
+        return
+    for g, (k, c, pub) in zip(got, keys):
+        ctx.hit('comments_checked')
+        wantc = c.encode() if c else path.encode()
+        if g.public_data != pub or not (g == k):
+            ctx.bad('multi_key_file_key_differs', label)
+            return
+        if g.get_comment_bytes() != wantc:
+            ctx.bad('multi_key_file_comment_differs',
+                    f'{label}: {g.get_comment_bytes()!r} != {wantc!r}')
+            return
+    # the same file through load_keypairs
+    kps = asyncssh.load_keypairs(path, pw)
+    if [kp.public_data for kp in kps] != [pub for _, _, pub in keys]:
+        ctx.bad('multi_key_file_key_differs', f'{label}: load_keypairs read '
+                f'{len(kps)} pairs')
+    # and as a public key list where that is defined (unencrypted text keys)
+    if all(not crypt and not fmt.endswith('der')
+           for _, fmt, crypt, _ in item['elems']):
+        pubs = asyncssh.read_public_key_list(path)
+        if [p.public_data for p in pubs] != [pub for _, _, pub in keys]:
+            ctx.bad('multi_key_file_key_differs',
+                    f'{label}: read_public_key_list on private file read '
+                    f'{len(pubs)} keys')
+
+
+def _multi_pub(ctx, item, label):
+    keys, parts = [], []
+    for spec, fmt, comment in item['elems']:
+        key = get_key(spec, 1)
+        key.set_comment(comment)
+        data = key.export_public_key(fmt)
+        keys.append((key.public_data,
+                     comment if fmt in ('openssh', 'rfc4716') else None))
+        parts.append((data, fmt.endswith('der')))
+    path = wfile('multi-pub', _join(parts, item['seps']), 0o644)
+    got = asyncssh.read_public_key_list(path)
+    ctx.hit('multi_key_files')
+    if len(got) != len(keys):
+        ctx.bad('multi_key_file_wrong_count',
+                f'{label}: {len(got)} keys read, {len(keys)} written')
+        return
+    for g, (pub, c) in zip(got, keys):
+        ctx.hit('comments_checked')
+        if g.public_data != pub:
+            ctx.bad('multi_key_file_key_differs', label)
+            return
+        if g.get_comment_bytes() != (c.encode() if c else path.encode()):
+            ctx.bad('multi_key_file_comment_differs',
+                    f'{label}: {g.get_comment_bytes()!r}')
+            return
+    # load_public_keys on the same file
+    got2 = asyncssh.load_public_keys(path)
+    if [g.public_data for g in got2] != [p for p, _ in keys]:
+        ctx.bad('multi_key_file_key_differs', f'{label}: load_public_keys')
+    # text-only files can also be checked against ssh-keygen -l
+    if KEYGEN and all(fmt == 'openssh' and spec in KEYGEN_TYPES
+                      for spec, fmt, _ in item['elems']):
+        r = tool([KEYGEN, '-l', '-f', path])
+        if r.returncode == 0:
+            fps = [l.split()[1].decode() for l in r.stdout.splitlines()
+                   if len(l.split()) > 1]
+            if fps != [fingerprint(p) for p, _ in keys]:
+                ctx.bad('keygen_reads_different_key',
+                        f'{label}: ssh-keygen -l lists {fps}')
+            else:
+                ctx.hit('keygen_out')
+        else:
+            ctx.hit('tool_skipped')
+
+
+def _make_cert(spec, ctype, comment, idx=1):
+    ca = get_key('ed25519', 0) if 'ca' not in _KEYS else _KEYS['ca']
+    _KEYS['ca'] = ca
+    key = get_key(spec, idx)
+    if ctype == 'host':
+        cert = ca.generate_host_certificate(key, 'h-' + spec,
+                                            principals=['h.example.com'],
+                                            comment=comment)
+    else:
+        cert = ca.generate_user_certificate(key, 'u-' + spec,
+                                            principals=['user'],
+                                            comment=comment)
+    return key, cert
+
+
+def _multi_certs(ctx, item, label):
+    certs, parts = [], []
+    for spec, ctype, fmt, comment in item['elems']:
+        _, cert = _make_cert(spec, ctype, comment)
+        certs.append((cert, comment))
+        parts.append((cert.export_certificate(fmt), False))
+    path = wfile('multi-cert', _join(parts, item['seps']), 0o644)
+    got = asyncssh.read_certificate_list(path)
+    ctx.hit('multi_key_files')
+    if len(got) != len(certs):
+        ctx.bad('multi_key_file_wrong_count',
+                f'{label}: {len(got)} certificates read, {len(certs)} '
+                f'written')
+        return
+    for g, (c, comment) in zip(got, certs):
+        ctx.hit('comments_checked')
+        if g != c or g.public_data != c.public_data or \
+                cert_view(g) != cert_view(c):
+            ctx.bad('multi_key_file_key_differs', label)
+            return
+        if g.get_comment_bytes() != (comment.encode() if comment else None):
+            ctx.bad('multi_key_file_comment_differs',
+                    f'{label}: {g.get_comment_bytes()!r}')
+            return
+    got2 = asyncssh.load_certificates(path)
+    if [g.public_data for g in got2] != [c.public_data for c, _ in certs]:
+        ctx.bad('multi_key_file_key_differs', f'{label}: load_certificates')
+
+
+def _multi_pair(ctx, item, label):
+    spec, fmt, how, comment = item['spec'], item['fmt'], item['how'], \
+        item['comment']
+    key, cert = _make_cert(spec, 'user', 'cert comment')
+    key.set_comment(comment)
+    kdata = key.export_private_key(fmt)
+    cdata = cert.export_certificate()
+    kpath = os.path.join(tmp(), 'pair-key')
+    for p in (kpath, kpath + '-cert.pub', kpath + '.pub'):
+        try:
+            os.unlink(p)
+        except OSError:
+            pass
+    with open(kpath, 'wb') as f:
+        f.write(kdata)
+    os.chmod(kpath, 0o600)
+
+    if how == 'sibling':
+        with open(kpath + '-cert.pub', 'wb') as f:
+            f.write(cdata)
+        kps = asyncssh.load_keypairs(kpath)
+    elif how == 'tuple_files':
+        cpath = wfile('pair.cert', cdata, 0o644)
+        kps = asyncssh.load_keypairs([(kpath, cpath)])
+    elif how == 'tuple_bytes':
+        kps = asyncssh.load_keypairs([(kdata, cdata)])
+    elif how == 'tuple_objects':
+        kps = asyncssh.load_keypairs([(key, cert)])
+    elif how == 'certlist':
+        kps = asyncssh.load_keypairs([kdata], certlist=[cdata])
+    elif how == 'mismatch':
+        other = get_key('p384' if spec != 'p384' else 'p256', 1)
+        try:
+            asyncssh.load_keypairs([(other, cert)])
+        except ValueError:
+            ctx.hit('multi_key_files')
+        else:
+            ctx.bad('mismatched_certificate_accepted', label)
+        return
+    else:   # 'same_file': private key followed by its OpenSSH certificate
+        with open(kpath, 'ab') as f:
+            f.write(cdata)
+        try:
+            kps = asyncssh.load_keypairs(kpath)
+        except (KeyImportError, ValueError) as exc:
+            ctx.hit('multi_key_files')
+            ctx.note(f'same_file_refused:{type(exc).__name__}')
+            return
+        except Exception as exc:    # noqa: BLE001
+            ctx.hit('multi_key_files')
+            ctx.bad('key_plus_openssh_cert_file_crashes',
+                    f'{label}: load_keypairs on a file holding a private key '
+                    f'followed by its OpenSSH certificate raised '
+                    f'{type(exc).__name__}: {exc}')
+            return
+        if kps and kps[-1].public_data == key.public_data:
+            return
+        ctx.bad('multi_key_file_key_differs', f'{label}: {len(kps)} pairs')
+        return
+
+    ctx.hit('multi_key_files')
+    if len(kps) != 2 or not kps[0].has_cert or kps[1].has_cert or \
+            kps[0].public_data != cert.public_data or \
+            kps[1].public_data != key.public_data or \
+            kps[0].key_public_data != key.public_data:
+        ctx.bad('key_certificate_pair_read_differently',
+                f'{label}: {[(k.get_algorithm(), k.has_cert) for k in kps]}')
+        return
+    # the pair must actually sign for the certified key
+    msg = os.urandom(32)
+    for kp in kps:
+        sig = kp.sign(msg)
+        if not key.convert_to_public().verify(msg, sig):
+            ctx.bad('key_certificate_pair_read_differently',
+                    f'{label}: signature by loaded pair does not verify')
+
+
+# ------------------------------------------------------------------ cases
+
+def rand_comment(rng):
+    alphabet = ('abcdefghijklmnopqrstuvwxyzABCDEFGHIJKLMNOPQRSTUVWXYZ'
+                '0123456789 !"#$%&\'()*+,-./:;<=>?@[\\]^_`{|}~ '
+                'äöüßéñ漢字✓€\U0001f511')
+    n = rng.choice([1, 2, 8, 30, 90])
+    c = ''.join(rng.choice(alphabet) for _ in range(n)).strip()
+    return c or 'x'
+
+
+def pick_comment(rng):
+    r = rng.random()
+    if r < 0.12:
+        return ['text', None], 'benign'
+    if r < 0.5:
+        return ['text', rng.choice(BENIGN_COMMENTS)], 'benign'
+    if r < 0.72:
+        return ['text', rand_comment(rng)], 'benign'
+    if r < 0.82:
+        return ['text', rng.choice(WS_EDGE_COMMENTS)], 'ws_edge'
+    return rng.choice(HOSTILE_COMMENTS), 'hostile'
+
+
+def supported_encs():
+    out = [('pkcs1-pem', (c, 'sha256', 2)) for c in PKCS1_CIPHERS]
+    for fmt in ('pkcs8-pem', 'pkcs8-der'):
+        out += [(fmt, (c, h, 1)) for c, h in PBES1]
+        out += [(fmt, (c, h, 2)) for c in PBES2_CIPHERS for h in PBES2_PRFS]
+    return out
+
+
+def pick_priv(rng, sup):
+    r = rng.random()
+    if r < 0.25:
+        fmt, enc = rng.choice(PRIV_FORMATS), None
+    elif r < 0.8:
+        fmt, enc = rng.choice(sup)
+    else:
+        fmt = rng.choice(PRIV_FORMATS)
+        enc = (rng.choice(ALL_CIPHERS), rng.choice(ALL_HASHES),
+               rng.choice([1, 2, 2, 3]))
+    pwname = rng.choice(list(PASSPHRASES)) if enc else 'none'
+    return [fmt, list(enc) if enc else None, pwname, pick_comment(rng)[0]]
+
+
+def rand_cert_params(rng, direction):
+    now = 1790000000
+    p = {'dir': direction, 'type': rng.choice(['user', 'user', 'host']),
+         'serial': rng.choice([0, 1, rng.randrange(1 << 32),
+                               rng.randrange(1 << 64), (1 << 64) - 1]),
+         'key_id': rng.choice(['id', 'user key 1', 'a"b', 'k' * 120,
+                               'host/1:2', 'x=y,z', 'ü-id ✓']),
+         'comment': rng.choice([None, 'subject comment', 'a b c'])}
+    r = rng.random()
+    if r < 0.25:
+        p['va'], p['vb'] = 0, FOREVER
+    elif r < 0.4:
+        p['va'], p['vb'] = 0, now + rng.randrange(1, 10 ** 9)
+    elif r < 0.55:
+        p['va'], p['vb'] = now - rng.randrange(1, 10 ** 9), FOREVER
+    else:
+        p['va'] = rng.randrange(1, 3 * 10 ** 9)
+        p['vb'] = p['va'] + rng.randrange(1, 10 ** 9)
+    names = ['alice', 'bob', 'root', 'host.example.com', '*.example.org',
+             'a-very-long-principal-name-' + 'x' * 60, 'üser']
+    p['principals'] = rng.sample(names, rng.choice([0, 0, 1, 2, 4]))
+    if p['type'] == 'user':
+        p['drop'] = sorted(rng.sample(KNOWN_EXT[:5], rng.choice([0, 0, 1, 3,
+                                                                  5])))
+        if rng.random() < 0.3:
+            p['no_touch'] = True
+        if rng.random() < 0.4:
+            p['force_command'] = rng.choice(
+                ['/bin/true', '/bin/echo a  b "c"', 'internal-sftp -l INFO',
+                 'sh -c \'x; y\''])
+        if rng.random() < 0.4:
+            p['source_address'] = rng.sample(
+                ['10.0.0.0/8', '192.168.1.1/32', '2001:db8::/32',
+                 '127.0.0.1/32', '::1/128', '172.16.0.0/12'],
+                rng.choice([1, 2, 3]))
+    if direction == 'keygen':
+        p['ca'] = rng.choice(['rsa', 'ecdsa', 'ed25519'])
+        p['subject'] = rng.choice(sorted(KEYGEN_TYPES - {'rsa3072',
+                                                         'rsa2048e3'}))
+        # -L output is parsed: keep what ssh-keygen prints verbatim ASCII
+        if not p['key_id'].isascii():
+            p['key_id'] = 'ascii id'
+        p['principals'] = [x for x in p['principals'] if x.isascii()]
+        if p['ca'] == 'rsa':
+            p['sig'] = rng.choice([None, 'rsa-sha2-256', 'rsa-sha2-512',
+                                   'ssh-rsa'])
+        r = rng.random()
+        if r < 0.2:
+            p['custom_ext'] = rng.sample(
+                ['foo@example.com=bar', 'flag@example.com',
+                 'zz@example.com=permit-pty'], rng.choice([1, 2]))
+        elif r < 0.3:
+            p['custom_crit'] = rng.choice(['bad@example.com=1',
+                                           'verify-required'])
+    else:
+        p['ca'] = rng.choice(['rsa1024', 'rsa2048', 'dss', 'p256', 'p384',
+                              'p521', 'ed25519', 'ed448', 'k256'])
+        p['subject'] = rng.choice(sorted(set(SPECS) - {'rsa3072',
+                                                       'rsa2048e3'}))
+        if p['ca'].startswith('rsa'):
+            p['sig'] = rng.choice([None, 'rsa-sha2-256', 'rsa-sha2-512',
+                                   'ssh-rsa'])
+        if rng.random() < 0.4:
+            p['ccomment'] = rng.choice(['cert comment', 'ü cert', 'a "b" c'])
+    return p
+
+
+TEXT_PRIV = ['openssh', 'pkcs1-pem', 'pkcs8-pem']
+TEXT_PUB = ['openssh', 'rfc4716', 'pkcs1-pem', 'pkcs8-pem']
+MULTI_SPECS = ['rsa1024', 'dss', 'p256', 'p384', 'p521', 'k256', 'ed25519',
+               'ed448', 'sk-ed25519', 'sk-ecdsa', 'p256short']
+
+
+def rand_multi(rng):
+    kind = rng.choice(['priv', 'priv', 'pub', 'pub', 'certs', 'pair'])
+    n = rng.choice([1, 2, 3, 5, 8])
+    seps = [rng.choice(SEPARATORS) for _ in range(n)]
+    bcomment = lambda: rng.choice([None, rng.choice(BENIGN_COMMENTS),
+                                   rand_comment(rng)])
+    if kind == 'priv':
+        der = rng.random() < 0.2
+        pw = rng.choice([None, 'multi pass', 'pässwörd'])
+        elems = []
+        for spec in rng.sample(MULTI_SPECS, min(n, len(MULTI_SPECS))):
+            fmts = [f for f in (['pkcs1-der', 'pkcs8-der'] if der else
+                                TEXT_PRIV)
+                    if not (f.startswith('pkcs1') and spec not in HAS_PKCS1)
+                    and not (f.startswith('pkcs') and spec in SK)]
+            if not fmts:
+                continue
+            fmt = rng.choice(fmts)
+            crypt = int(pw is not None and fmt not in ('openssh',
+                                                       'pkcs1-der')
+                        and rng.random() < 0.6)
+            elems.append([spec, fmt, crypt, bcomment()])
+        return dict(kind='priv', pw=pw, elems=elems, seps=seps)
+    if kind == 'pub':
+        der = rng.random() < 0.2
+        elems = []
+        for spec in rng.sample(MULTI_SPECS, min(n, len(MULTI_SPECS))):
+            fmts = [f for f in (['pkcs1-der', 'pkcs8-der'] if der else
+                                TEXT_PUB)
+                    if not (f.startswith('pkcs1') and
+                            spec not in HAS_PKCS1_PUB)
+                    and not (f.startswith('pkcs') and spec in SK)]
+            if not fmts:
+                continue
+            elems.append([spec, rng.choice(fmts), bcomment()])
+        if rng.random() < 0.3:
+            elems = [[s, 'openssh', c] for s, _, c in elems]
+        return dict(kind='pub', elems=elems, seps=seps)
+    if kind == 'certs':
+        elems = [[spec, rng.choice(['user', 'host']),
+                  rng.choice(['openssh', 'openssh', 'rfc4716']), bcomment()]
+                 for spec in rng.sample(MULTI_SPECS, min(n, 6))]
+        return dict(kind='certs', elems=elems, seps=seps)
+    spec = rng.choice(MULTI_SPECS)
+    fmts = [f for f in TEXT_PRIV
+            if not (f.startswith('pkcs1') and spec not in HAS_PKCS1)
+            and not (f.startswith('pkcs') and spec in SK)]
+    return dict(kind='pair', spec=spec, fmt=rng.choice(fmts),
+                how=rng.choice(['sibling', 'tuple_files', 'tuple_bytes',
+                                'tuple_objects', 'certlist', 'mismatch',
+                                'same_file']),
+                comment=bcomment())
+
+
+def gen_cases(tier, seed):
+    rng = random.Random(f'c15-{seed}')
+    quick = tier == 'quick'
+    cases = []
+    sup = supported_encs()
+    slow = {'rsa2048', 'rsa2048e3', 'rsa3072'}
+
+    def add(kind, **kw):
+        cases.append(dict(kind=kind, cseed=rng.randrange(1 << 30), **kw))
+
+    ptool = 0.5 if quick else 1.0
+    for spec in SPECS:
+        # random walks over the private export grid
+        reps = (3 if spec in slow else 6) * (1 if quick else 3)
+        for _ in range(reps):
+            n = 6 if spec in slow else 14
+            add('priv', spec=spec, p_openssl=ptool, p_keygen=ptool,
+                items=[pick_priv(rng, sup) for _ in range(n)])
+        for _ in range(2 if quick else 6):
+            items = []
+            for fmt in PUB_FORMATS:
+                for _ in range(5):
+                    c, cls = pick_comment(rng)
+                    items.append([fmt, c, cls])
+            add('pub', spec=spec, items=items)
+
+    if not quick:
+        # the whole (format x cipher x hash x version) grid, every
+        # passphrase class cycling over it
+        pws = list(PASSPHRASES)
+        for spec in SPECS:
+            grid = []
+            i = 0
+            for fmt in PRIV_FORMATS:
+                grid.append([fmt, None, 'none', ['text', 'grid']])
+                for c in ALL_CIPHERS:
+                    for h in ALL_HASHES:
+                        for v in (1, 2, 3):
+                            reps = len(pws) if (
+                                supported_enc(fmt, (c, h, v)) and
+                                spec not in slow) else 1
+                            if fmt == 'pkcs1-pem' and (h != 'sha256' or
+                                                       v != 2):
+                                reps = 1 if c not in PKCS1_CIPHERS else 0
+                            for _ in range(reps):
+                                i += 1
+                                grid.append([fmt, [c, h, v],
+                                             pws[i % len(pws)],
+                                             ['text', rng.choice(
+                                                 [None, 'grid c'])]])
+            size = 40 if spec in slow else 80
+            for k in range(0, len(grid), size):
+                add('priv', spec=spec, p_openssl=1.0, p_keygen=0.5,
+                    items=grid[k:k + size])
+        # every hostile / edge / benign comment in every text format
+        for spec in SPECS:
+            items = [[fmt, c, cls] for fmt in ('openssh', 'rfc4716')
+                     for cls, lst in (('hostile', HOSTILE_COMMENTS),
+                                      ('ws_edge', [['text', c] for c in
+                                                   WS_EDGE_COMMENTS]),
+                                      ('benign', [['text', c] for c in
+                                                  BENIGN_COMMENTS]))
+                     for c in lst]
+            add('pub', spec=spec, items=items)
+            add('priv', spec=spec, p_openssl=0, p_keygen=1.0,
+                items=[['openssh', None, 'none', c] for c in
+                       HOSTILE_COMMENTS + [['text', c] for c in
+                                           WS_EDGE_COMMENTS +
+                                           BENIGN_COMMENTS]])
+
+    for kind2 in PYCA_KINDS:
+        for _ in range(2 if quick else 8):
+            items = [[f, e, c] for f in ('pkcs8', 'trad', 'openssh')
+                     for e in ('pem', 'der') for c in (0, 1)]
+            add('in_pyca', kind2=kind2, items=items,
+                pw=rng.choice(['pyca pass', 'pässwörd€', 'x']))
+            encs = [(f, e) for f, e in sup]
+            pick = rng.sample(encs, 14) if quick else encs
+            add('in_openssl', kind2=kind2, explicit=rng.random() < 0.7,
+                items=[[f, list(e), rng.choice(['ascii', 'unicode', 'long',
+                                                'quote'])]
+                       for f, e in pick])
+
+    for _ in range(16 if quick else 80):
+        items = []
+        for _ in range(3):
+            kt, bits = rng.choice(KEYGEN_KINDS)
+            items.append([kt, bits, rng.choice([None, 'PEM', 'PKCS8']),
+                          rng.choice([None, None, 'keygen pass',
+                                      'p4ss-w0rd!']),
+                          rng.choice(['kg comment', '', 'a b  c',
+                                      'user@host.example.com'])])
+        add('in_keygen', items=items)
+
+    for _ in range(40 if quick else 300):
+        add('cert', items=[rand_cert_params(
+            rng, rng.choice(['keygen', 'asyncssh'])) for _ in range(8)])
+
+    for _ in range(30 if quick else 250):
+        add('multi', items=[rand_multi(rng) for _ in range(6)])
+    return cases
+
+
+def signature(case):
+    body = {k: v for k, v in case.items() if k not in ('cseed', '_i')}
+    return hashlib.sha1(repr(sorted(body.items())).encode()).hexdigest()[:16]
+
+
+def run_case(case):
+    ctx = Ctx(case)
+    kind = case['kind']
+    if kind == 'priv':
+        for fmt, enc, pwname, citem in case['items']:
+            key = get_key(case['spec'], ctx.rng.randrange(2))
+            eval_priv(ctx, case['spec'], key, fmt,
+                      tuple(enc) if enc else None, pwname, citem)
+    elif kind == 'pub':
+        key = get_key(case['spec'], ctx.rng.randrange(2))
+        for fmt, citem, cls in case['items']:
+            eval_pub(ctx, case['spec'], key, fmt, citem, cls)
+    elif kind == 'in_pyca':
+        run_in_pyca(ctx)
+    elif kind == 'in_openssl':
+        run_in_openssl(ctx)
+    elif kind == 'in_keygen':
+        run_in_keygen(ctx)
+    elif kind == 'cert':
+        run_cert(ctx)
+    elif kind == 'multi':
+        run_multi(ctx)
+
+    nontrivial = sum(ctx.mon.values()) > 0
+    sample = {'kind': kind, 'spec': case.get('spec') or case.get('kind2'),
+              'first_items': case.get('items', [])[:2],
+              'n_items': len(case.get('items', [])),
+              'observed': dict(ctx.obs, **{k: v for k, v in ctx.mon.items()
+                                           if v})}
+    res = {'mon': ctx.mon, 'sig': signature(case) if nontrivial else None,
+           'sample': sample}
+    seen, uniq = set(), []
+    for v in ctx.viol:
+        if v['mechanism'] not in seen and len(uniq) < 6:
+            seen.add(v['mechanism'])
+            uniq.append(v)
+    if uniq:
+        res['verdict'] = 'violated'
+        res['violations'] = uniq
+    elif not nontrivial:
+        res['verdict'] = 'skipped'
+    else:
+        res['verdict'] = 'held'
+    return res
